@@ -243,6 +243,14 @@ pub fn run(r: &Report) {
     }
     let mut d3_roots = 0usize;
     if thorough {
+        // every arity-3 tuple / UDT over all natives (quick has the triples over six representatives)
+        for t in types::depth1_over(&types::natives(), &[], false) {
+            if matches!(&t, Type::Tuple(ts) if ts.len() == 3) || matches!(&t, Type::Udt { fields, .. } if fields.len() == 3) {
+                if !d1.contains(&t) {
+                    work.push(Work::Single(t));
+                }
+            }
+        }
         // depth 3: constructors applied three times over the class representatives int / text
         let reps3 = vec![types::nat(refv::Native::Int), types::nat(refv::Native::Text), types::nat(refv::Native::Varint)];
         for t in types::depth1_over(&reps3, &[1, 2], false) {
@@ -301,7 +309,7 @@ pub fn run(r: &Report) {
     r.counters.add("short_udt_alternative_encodings_decoded", st.alt_decodes.load(Ordering::Relaxed));
     r.note("max_type_depth", json!(max_depth.load(Ordering::Relaxed)));
     r.set_rule(
-        "E-ENUM, dynamic value type. Column types: 20 natives; depth 1 = list/set/vector(dim 0..3) of every native, map of every native pair, tuple+UDT arity 0,1,2 (all), 3 (all triples over int,text,boolean,varint,uuid,duration + (n,int,text)); depth 2 = list/set/vector/map/tuple/UDT constructors over every depth-1 type with partner types {int,text} (quick; vector dim 1,2) or all natives (thorough; dim 0..3); thorough adds depth 3 (constructors applied three times, partners int/text) over the class representatives int/text/varint and uses the full native alphabets down to nesting level 2. Values per type: the listed boundary alphabet (numeric MIN/-1/0/1/MAX, NaN payloads, -0.0, multi-byte UTF-8, strings/blobs of 0/1/127/128/16386 bytes, durations at every vint length 1..9, non-normalised and zero-length varints, decimals with negative scale), every container shape (empty, each singleton, pair, triple; every tuple/UDT position x every value, every null pattern, every shorter tuple, every UDT omission pattern, reversed UDT naming order), null, not-set, zero-length empty. Oracle: crate::refvalue (bytes equal incl. length prefix; decode == canonical form). distinct_nontrivial = accepted cases of composite types with a non-null, non-empty value.",
+        "E-ENUM, dynamic value type. Column types: 20 natives; depth 1 = list/set/vector(dim 0..3) of every native, map of every native pair, tuple+UDT arity 0,1,2 (all), 3 (all triples over int,text,boolean,varint,uuid,duration + (n,int,text)); depth 2 = list/set/vector/map/tuple/UDT constructors over every depth-1 type with partner types {int,text} (quick; vector dim 1,2) or all natives (thorough; dim 0..3); thorough adds all 8000 arity-3 tuples and UDTs over the natives, depth 3 (constructors applied three times, partners int/text) over the class representatives int/text/varint and uses the full native alphabets down to nesting level 2. Values per type: the listed boundary alphabet (numeric MIN/-1/0/1/MAX, NaN payloads, -0.0, multi-byte UTF-8, strings/blobs of 0/1/127/128/16386 bytes, durations at every vint length 1..9, non-normalised and zero-length varints, decimals with negative scale), every container shape (empty, each singleton, pair, triple; every tuple/UDT position x every value, every null pattern, every shorter tuple, every UDT omission pattern, reversed UDT naming order), null, not-set, zero-length empty. Oracle: crate::refvalue (bytes equal incl. length prefix; decode == canonical form). distinct_nontrivial = accepted cases of composite types with a non-null, non-empty value.",
     );
     r.set_exhaustive(true);
     r.assume("vector element widths follow Cassandra 5.0's fixed-length table (boolean 1, int/float 4, bigint/double/timestamp 8, uuid/timeuuid 16; vector of fixed = width x dim); everything else is unsigned-vint length prefixed");
